@@ -516,6 +516,17 @@ impl Prop for EngineAlign {
             "engine produced {} frames, the alignment law with rate {} / frame period {} gives {} (times {:?})",
             frames, rate, fp, expect_frames, times
         );
+        if c.times.iter().all(|t| t.is_none()) {
+            // no annotation at all: the same utterance as already parsed labels is the same request
+            // (every label falls back to its model durations instead of vanishing)
+            let g2 = match engine.generator(labels.clone()) {
+                Ok(g) => g,
+                Err(e) => fail!("generator", "generator failed on parsed labels: {}", e),
+            };
+            let f2 = trajectories(&g2).lf0.len();
+            rep.class("no-annotation:parsed-labels-too");
+            ensure!(f2 == expect_frames, "engine-align-frames", "parsed labels without any time, alignment on: engine produced {} frames, the model durations give {}", f2, expect_frames);
+        }
         if frames <= 300 {
             let w = g.generate_all();
             ensure!(w.len() == frames * fp, "engine-length", "waveform {} samples != {} frames x {}", w.len(), frames, fp);
